@@ -1,12 +1,20 @@
 (* C02, semantic clause, by composition:
      EagerModel.get_value = complete ; MGSubstituter.substitute ; simplify ; "is a constant?"
-   - substitution lemma (proofs/Substituter_proofs.v, C05) for a map from symbols to constants,
-   - simplify_sound / fold_complete (proofs/SimplifierSem_proofs.v, SimplifierFoldComplete_proofs.v, C01),
+   - substituting a MODEL (symbols -> constants) into a term: [subst_const], proved here with the
+     constructor lemmas of the C05 development (proofs/Substituter_proofs.v: mk_div_sem,
+     eval_nonbinder, rebuild_fn_nil, lookup/sym_keys lemmas; [subst_eval_same] shows that on C05's
+     fragment the value part is C05_subst_lemma_partial) - it gives totality, type preservation,
+     closedness, the value, and the transfer of nodiv0 / div_safe;
+   - simplify_sound / fold_complete (proofs/SimplifierSem_proofs.v, SimplifierFoldComplete_proofs.v, C01);
    - coincidence (proofs/Coincidence.v).
-   Common fragment [gfrag]: quantifier-free, UF-free terms over And Or Not Implies Iff Ite Equals
-   Plus Times Minus LE LT Div, constants and symbols (= cfrag + symbols - ToReal - Pow, the two
-   operators outside the fragment of the substitution lemma), with the node conditions of both
-   ingredients ([frag] of C05, [okt] = in_frag of C01). *)
+   Common fragment [gfrag]: quantifier-free, UF-free terms over
+     And Or Not Implies Iff Ite Equals  Plus Times Minus LE LT Div ToReal
+     bit-vector not neg and or xor add sub mul udiv urem sdiv srem shl lshr ashr concat comp,
+     ult ule slt sle, bv2nat, the five kinds of constants, symbols of any inhabited first-order sort
+   with the node conditions [okt] (= in_frag of C01) and [gfr] (those of C05's frag: n-ary nodes
+   with >= 2 arguments, canonical Real constants, no negation directly under a negation or as a
+   divisor).  Outside: Pow, bv extract / rotate / extend, strings, arrays, quantifiers, function
+   applications. *)
 From Coq Require Import List ZArith Bool String Reals Lia Lra.
 From PySMT.core Require Import Syntax SyntaxLemmas PyPrims Types Sem.
 From PySMT.models Require Import TypeChecker Oracles Ctors Substituter Simplifier EagerModel.
@@ -18,7 +26,7 @@ Open Scope bool_scope.
 (* ------------------------------------------------------------------ vocabulary *)
 Definition gop (o : op) : bool :=
   match o with
-  | OAnd | OOr | ONot | OImplies | OIff | OIte | OEquals | OPlus | OTimes | OMinus | OLe | OLt | ODiv
+  | OAnd | OOr | ONot | OImplies | OIff | OIte | OEquals | OPlus | OTimes | OMinus | OLe | OLt | ODiv | OToReal
   | OBV _ _ | OBVRel _ | OBVToNat
   | OBoolC _ | OIntC _ | ORealC _ _ | OBVC _ _ | OStrC _ | OSymbol _ _ => true
   | _ => false
@@ -27,7 +35,31 @@ Fixpoint gops (t : term) : bool :=
   match t with T o args => gop o && (fix all (l : list term) : bool := match l with [] => true | x :: r => gops x && all r end) args end.
 Lemma gops_unfold o args : gops (T o args) = gop o && forallb gops args.
 Proof. reflexivity. Qed.
-Definition gfrag (t : term) : bool := frag t && okt t && gops t.
+(* node conditions: those of the fragment of the C05 substitution lemma (Substituter_proofs.frag_op:
+   And/Or/Plus/Times with >= 2 arguments, Not with one, canonical Real constants ...) plus ToReal *)
+Definition gnode (o : op) (n : nat) : bool := match o with OToReal => Nat.eqb n 1 | _ => frag_op o n end.
+Fixpoint gfr (t : term) : bool :=
+  match t with
+  | T o args =>
+      gnode o (List.length args)
+      && match o, args with ONot, [c] | ODiv, [_; c] => negb (is_not c) | _, _ => true end
+      && (fix all (l : list term) : bool := match l with [] => true | x :: r => gfr x && all r end) args
+  end.
+Lemma gfr_args o args : gfr (T o args) = true -> Forall (fun a => gfr a = true) args.
+Proof.
+  cbn [gfr]. rewrite !andb_true_iff. intros [_ H]. induction args as [|x r IH]; constructor.
+  - apply andb_true_iff in H. tauto.
+  - apply IH. apply andb_true_iff in H. tauto.
+Qed.
+Lemma frag_gfr : forall t, frag t = true -> gfr t = true.
+Proof.
+  induction t as [o args IH] using term_ind'. intros H. pose proof (frag_args _ _ H) as F.
+  cbn [frag] in H. rewrite !andb_true_iff in H. destruct H as [[H1 H2] _]. cbn [gfr].
+  assert (G : gnode o (List.length args) = true) by (destruct o; try exact H1; discriminate H1).
+  rewrite G, H2. cbn [andb]. clear - IH F. induction args as [|x r IHr]; [reflexivity|].
+  inversion IH; inversion F; subst. rewrite H1 by auto. now apply IHr.
+Qed.
+Definition gfrag (t : term) : bool := gfr t && okt t && gops t.
 
 (* a constant of sort ty, as the FormulaManager builds it *)
 Definition const_of (ty : Syntax.ty) (v : term) : Prop := kconst v /\ okt v = true /\ tc v = Some ty.
@@ -86,7 +118,7 @@ Proof.
   intros n ty _. cbn [upd isym]. destruct (lookup s (TSym n ty)) eqn:L; auto. symmetry. now apply H.
 Qed.
 
-Lemma gfrag_parts t : gfrag t = true -> frag t = true /\ okt t = true /\ gops t = true.
+Lemma gfrag_parts t : gfrag t = true -> gfr t = true /\ okt t = true /\ gops t = true.
 Proof. unfold gfrag. rewrite !andb_true_iff. tauto. Qed.
 
 (* the substitution lemma (C05) specialised to a model: the substituted term has the value of
@@ -179,8 +211,12 @@ Proof.
     cbn [ok_node] in Hk. apply andb_true_iff in Hk. destruct Hk as [_ Hk].
     destruct k; args4 args; cbn in Hk; try discriminate Hk; cbn [rebuild is_bvun];
       unfold mk_bvun, mk_bvop, mk_bvconcat, mk_bvcomp; inversion Fo; subst;
-      try (rewrite (bv_first_width _ w _ _ ty ltac:(discriminate) ltac:(discriminate) ltac:(assumption) Htc); reflexivity).
-    + (* concat *) inversion H2; subst. now rewrite (bv_concat_width w a b ty H1 H4 Htc).
+      try (match goal with
+           | |- Some (T (OBV ?k (bv_width ?x)) (?x :: ?r)) = _ =>
+               assert (bv_width x = w) as -> by (apply (bv_first_width k w x r ty); [discriminate | discriminate | assumption | exact Htc]);
+               reflexivity
+           end).
+    + (* concat *) inversion H2; subst. now rewrite (bv_concat_width w a b ty H1 H3 Htc).
     + (* comp *) apply Z.eqb_eq in Hk. now subst.
 Qed.
 
@@ -244,7 +280,7 @@ Theorem subst_const : forall t, sres_stmt t.
 Proof.
   induction t as [o args IH] using term_ind'. intros s ty Hm Hg Htc.
   destruct (gfrag_parts _ Hg) as (Hf & Ho & Hgo).
-  pose proof (frag_args _ _ Hf) as Ff. pose proof (okt_args _ _ Ho) as Fo.
+  pose proof (gfr_args _ _ Hf) as Ff. pose proof (okt_args _ _ Ho) as Fo.
   destruct (gops_args _ _ Hgo) as [Hgop Fg].
   destruct (tc_inv _ _ _ Htc) as (tys & Htcs & Hrule). pose proof (tcs_Forall2 _ _ Htcs) as Ft.
   assert (Fgf : Forall (fun a => gfrag a = true) args).
@@ -260,8 +296,7 @@ Proof.
   assert (Fg' : Forall (fun a => gops a = true) args').
   { clear - Hch. induction Hch as [|a a' r r' H _ IHc]; constructor; auto. destruct H as (_ & _ & _ & H & _). exact H. }
   assert (Hq : is_quant o = None) by now apply gop_not_quant.
-  pose proof Hf as Hf0.
-  cbn [frag] in Hf. rewrite !andb_true_iff in Hf. destruct Hf as [[Hfo Hfx] _].
+  cbn [gfr] in Hf. rewrite !andb_true_iff in Hf. destruct Hf as [[Hfo Hfx] _].
   pose proof (okt_node _ _ Ho) as Hk.
   assert (Hcargs : is_const_op o = true -> args = [] /\ args' = []).
   { intros Hc. assert (args = []).
@@ -308,6 +343,34 @@ Proof.
       induction Hsem as [|a a' r r' H _ IHc]; constructor; inversion F; subst; auto. now apply H. }
     assert (Htcr : tc (T o args') = Some ty) by (rewrite tc_tcs, (tcs_eq _ _ Ft'), Htcs; exact Hrule).
     assert (Hokn : ok_node o args' = true) by (rewrite (ok_node_len o args args' Hgop Hlen); exact Hk).
+    assert (Hmap : forall I, wf_interp I -> agrees I s -> map (eval I) args' = map (eval I) args).
+    { intros I Hwf Hag. specialize (Hsem I Hwf Hag). clear - Hsem.
+      induction Hsem as [|a a' r r' [E _] _ IHc]; cbn; congruence. }
+    assert (Hns : forall n0 ty0, o <> OSymbol n0 ty0) by (intros n0 ty0 ->; discriminate Hs).
+    assert (Hev : forall I, wf_interp I -> agrees I s -> eval I (T o args') = eval I (T o args)).
+    { intros I Hwf Hag. apply eval_nonbinder; auto. }
+    (* the node is rebuilt as it is *)
+    assert (Hgen : o <> ODiv -> rebuild o args' = Some (T o args') -> exists t', sres s (T o args) t').
+    { intros Hne Hrb. set (r := T o args').
+      assert (Hsub : subst_mgs_i [] s (T o args) = Some r).
+      { cbn [subst_mgs_i]. rewrite Hq, Ea, L, rebuild_fn_nil, Hrb. unfold checked, r. now rewrite Htcr. }
+      exists r. split; [exact Hsub|]. split; [now apply okt_intro|]. split; [unfold r; congruence|].
+      split; [unfold r; rewrite gops_unfold, Hgop; apply forallb_forall; now apply Forall_forall|].
+      split; [intros Hn; exact Hn|].
+      split.
+      { intros Hc. unfold r. rewrite cops_unfold, (cop_of_gop o Hgop Hs). apply forallb_forall. apply Forall_forall. auto. }
+      intros I Hwf Hag. split; [now apply Hev|]. split.
+      * intros Hn. apply nodiv0_intro; auto. apply Hnd; auto. eapply nodiv0_args; eauto.
+      * destruct (op_eqb o OIte) eqn:Hi.
+        -- apply op_eqb_eq in Hi. subst o.
+           destruct args as [|c [|a [|b [|? ?]]]]; try discriminate Hk.
+           specialize (Hsem I Hwf Hag).
+           inversion Hsem as [|? c' ? ? Sc S1]; subst. inversion S1 as [|? a' ? ? Sa S2]; subst.
+           inversion S2 as [|? b' ? ? Sb S3]; subst. inversion S3; subst.
+           destruct Sc as (Ec & _ & Dc). destruct Sa as (_ & _ & Da). destruct Sb as (_ & _ & Db).
+           unfold r. cbn [div_safe]. intros [D1 D2]. split; auto. rewrite Ec. destruct (vbool (eval I c)); auto.
+        -- assert (Hni : o <> OIte) by (intros ->; cbn in Hi; discriminate).
+           intros D. apply (ds_generic I o args'); auto. apply Hds; auto. now apply (ds_generic I o args). }
     destruct (op_eqb o ODiv) eqn:Hd.
     + (* division: a non-zero Real constant divisor becomes a multiplication by its inverse *)
       apply op_eqb_eq in Hd. subst o.
@@ -324,8 +387,7 @@ Proof.
         split; [intros _; cbn; discriminate|].
         split; [intros Hc; rewrite cops_unfold; cbn [cop andb]; apply forallb_forall; apply Forall_forall; auto|].
         intros I Hwf Hag.
-        assert (Ev : eval I (T ODiv [a'; b']) = eval I (T ODiv [a; b])).
-        { apply (subst_eval_same I s); auto. }
+        assert (Ev : eval I (T ODiv [a'; b']) = eval I (T ODiv [a; b])) by now apply Hev.
         split; [exact Ev|]. specialize (Hsem I Hwf Hag).
         inversion Hsem as [|? ? ? ? Sa Sr]; subst. inversion Sr as [|? ? ? ? Sb _]; subst.
         destruct Sa as (_ & Na & Da). destruct Sb as (Eb & Nb & Db). split.
@@ -346,7 +408,7 @@ Proof.
       { pose proof (fr_norm_pos den num Hnum). unfold inv. lia. }
       destruct (mk_real_okt inv Hinv) as (Rok & Rtc & Rg & Rc & Rs).
       (* types: the divisor is a Real constant, so the division is over the reals *)
-      destruct Hb as (_ & _ & Tb & _). destruct Ha as (_ & Oa & Ta & Ga & _ & Ca & _).
+      destruct Hb as (_ & Ob & Tb & _). destruct Ha as (_ & Oa & Ta & Ga & _ & Ca & _).
       assert (Tb' : tc (T (ORealC num den) bargs) = Some TReal).
       { destruct (tc (T (ORealC num den) bargs)) as [tb|] eqn:E.
         - destruct (tc_inv _ _ _ E) as (tys' & _ & Hr'). cbn in Hr'. destruct tys'; [now inversion Hr' | discriminate].
@@ -370,40 +432,58 @@ Proof.
       split.
       { intros Hc. specialize (Hcov Hc). inversion Hcov; subst.
         unfold r. rewrite cops_unfold. cbn [cop andb forallb]. rewrite Ca by auto. now rewrite Rc. }
-      intros I Hwf Hag. split; [apply (subst_eval_same I s); auto|].
+      assert (Hrc : realc_ok (T (ORealC num den) bargs)).
+      { intros n0 d0 l0 E0. injection E0 as <- <- <-. split.
+        - destruct (tc_inv _ _ _ Tb') as (tys' & Hs' & Hr'). cbn in Hr'. destruct tys'; [|discriminate].
+          destruct bargs as [|x xs]; [reflexivity|]. cbn in Hs'. destruct (tc x); [|discriminate]. destruct (tcs xs); discriminate.
+        - apply okt_node in Ob. cbn in Ob. apply Z.ltb_lt in Ob. lia. }
+      intros I Hwf Hag.
+      split; [unfold r; rewrite (mk_div_sem I a' _ _ Hrc Hmk); now apply Hev|].
       specialize (Hsem I Hwf Hag). inversion Hsem as [|? ? ? ? Sa _]; subst. destruct Sa as (_ & Na & Da).
       destruct (Rs I) as [R1 R2]. split.
       * intros [_ Hall]. cbn in Hall. unfold r. cbn. tauto.
       * cbn [div_safe]. intros (D1 & _). unfold r. cbn [div_safe]. tauto.
-    + (* every other operator is rebuilt as it is *)
-      assert (Hne : o <> ODiv) by (intros ->; cbn in Hd; discriminate).
-      set (r := T o args').
-      assert (Hrb : rebuild o args' = Some r).
-      { apply (rebuild_generic o args' ty); auto.
-        - now rewrite Hlen.
-        - intros Hc. now destruct (Hcargs Hc).
-        - intros c' -> Eargs. subst args'. destruct args as [|c [|? ?]]; try discriminate Hlen.
-          inversion Hch as [|? ? ? ? Hc _]; subst. destruct Hc as (_ & _ & _ & _ & Hh & _). apply Hh.
-          cbn in Hfx. apply negb_true_iff in Hfx. intros Et. unfold is_not in Hfx. now rewrite Et in Hfx. }
-      assert (Hsub : subst_mgs_i [] s (T o args) = Some r).
-      { cbn [subst_mgs_i]. rewrite Hq, Ea, L, rebuild_fn_nil, Hrb. unfold checked, r. now rewrite Htcr. }
-      exists r. split; [exact Hsub|]. split; [now apply okt_intro|]. split; [unfold r; congruence|].
-      split; [unfold r; rewrite gops_unfold, Hgop; apply forallb_forall; now apply Forall_forall|].
-      split; [intros Hn; exact Hn|].
-      split.
-      { intros Hc. unfold r. rewrite cops_unfold, (cop_of_gop o Hgop Hs). apply forallb_forall. apply Forall_forall. auto. }
-      intros I Hwf Hag. split; [apply (subst_eval_same I s); auto|]. split.
-      * intros Hn. apply nodiv0_intro; auto. apply Hnd; auto. eapply nodiv0_args; eauto.
-      * destruct (op_eqb o OIte) eqn:Hi.
-        -- apply op_eqb_eq in Hi. subst o.
-           destruct args as [|c [|a [|b [|? ?]]]]; try discriminate Hk.
-           specialize (Hsem I Hwf Hag).
-           inversion Hsem as [|? c' ? ? Sc S1]; subst. inversion S1 as [|? a' ? ? Sa S2]; subst.
-           inversion S2 as [|? b' ? ? Sb S3]; subst. inversion S3; subst.
-           destruct Sc as (Ec & _ & Dc). destruct Sa as (_ & _ & Da). destruct Sb as (_ & _ & Db).
-           unfold r. cbn [div_safe]. intros [D1 D2]. split; auto. rewrite Ec. destruct (vbool (eval I c)); auto.
-        -- assert (Hni : o <> OIte) by (intros ->; cbn in Hi; discriminate).
-           intros D. apply (ds_generic I o args'); auto. apply Hds; auto. now apply (ds_generic I o args).
+    + assert (Hne : o <> ODiv) by (intros ->; cbn in Hd; discriminate).
+      destruct (op_eqb o OToReal) eqn:Htr.
+      * (* ToReal: an Int constant becomes a Real constant *)
+        apply op_eqb_eq in Htr. subst o.
+        destruct args as [|a [|? ?]]; try discriminate Hk.
+        inversion Hch as [|? a' ? ? Ha Hr1]; subst. inversion Hr1; subst.
+        destruct Ha as (_ & Oa & Ta & Ga & _ & Ca & _).
+        inversion Ft as [|? ta ? ? Ta1 Ft2]; subst. inversion Ft2; subst.
+        cbn in Hrule. unfold type_to_type in Hrule. cbn in Hrule.
+        destruct ta; cbn in Hrule; try discriminate. injection Hrule as <-.
+        assert (Ta' : tc a' = Some TInt) by congruence.
+        destruct a' as [oa la].
+        destruct (match oa with OIntC _ => true | _ => false end) eqn:Hic.
+        -- destruct oa; try discriminate Hic.
+           assert (la = []).
+           { destruct (tc_inv _ _ _ Ta') as (tys' & Hs' & Hr'). cbn in Hr'. destruct tys'; [|discriminate].
+             destruct la as [|x xs]; [reflexivity|]. cbn in Hs'. destruct (tc x); [|discriminate]. destruct (tcs xs); discriminate. }
+           subst la. set (r := mk_real (z, 1%Z)).
+           assert (Hone : snd (z, 1%Z) <> 0%Z) by (cbn; lia).
+           destruct (mk_real_okt (z, 1%Z) Hone) as (Rok & Rtc & Rg & Rc & Rs).
+           assert (Hsub : subst_mgs_i [] s (T OToReal [a]) = Some r).
+           { cbn [subst_mgs_i is_quant]. rewrite Ea, L, rebuild_fn_nil. cbn [rebuild]. unfold mk_toreal. rewrite Ta'.
+             cbn [top]. unfold checked. now rewrite Rtc. }
+           exists r. split; [exact Hsub|]. split; [exact Rok|]. split; [unfold r; rewrite Rtc; symmetry; exact Htc|]. split; [exact Rg|].
+           split; [intros _; unfold r, mk_real; cbn [fst snd]; destruct (fr_norm z 1); cbn; discriminate|].
+           split; [intros _; exact Rc|].
+           intros I Hwf Hag. destruct (Rs I) as [R1 R2]. split; [|split; auto].
+           specialize (Hmap I Hwf Hag). cbn [map] in Hmap. injection Hmap as Hm1.
+           cbn [eval map]. rewrite <- Hm1. unfold r, mk_real. cbn [fst snd]. rewrite fr_norm_int.
+           cbn. f_equal. unfold Q2R'. field.
+        -- apply Hgen; auto. cbn [rebuild]. unfold mk_toreal. rewrite Ta'. cbn [top].
+           destruct oa; try reflexivity. discriminate Hic.
+      * (* every other operator is rebuilt as it is *)
+        assert (Hfo' : frag_op o (List.length args) = true).
+        { destruct o; try exact Hfo. cbn in Htr. discriminate. }
+        apply Hgen; auto. apply (rebuild_generic o args' ty); auto.
+        -- now rewrite Hlen.
+        -- intros Hc. now destruct (Hcargs Hc).
+        -- intros c' -> Eargs. subst args'. destruct args as [|c [|? ?]]; try discriminate Hlen.
+           inversion Hch as [|? ? ? ? Hc _]; subst. destruct Hc as (_ & _ & _ & _ & Hh & _). apply Hh.
+           cbn in Hfx. apply negb_true_iff in Hfx. intros Et. unfold is_not in Hfx. now rewrite Et in Hfx.
 Qed.
 
 (* ------------------------------------------------------------------ model completion *)
@@ -665,7 +745,7 @@ Proof.
     destruct (get_value_exact_partial ora m (TSym n t) t I v Hm (sym_gfrag n t Ht) eq_refl Hwf Hag Hd1 Hn1 G)
       as (Kc & Tc & Oc & Ec).
     split; [|now rewrite Ec].
-    split; [|auto]. eapply is_constant_kconst; eauto. now apply is_const_is_constant. }
+    split; [|auto]. eapply is_const_kconst; eauto. }
   assert (Hms : model_ok subs).
   { intros k v Hin. destruct (Hval _ _ Hin) as (n & t & E & C & _). eauto. }
   assert (Has : agrees I subs).
@@ -674,7 +754,7 @@ Proof.
   assert (Hcs : covered subs f) by (intros n t Hin; now apply V2).
   destruct (eval_through ora subs f TBool I Hms Hg Htc Hwf Has Hcs Hnd) as (r & c & Sr & Sc & Kc & Tc & Oc & Ec).
   rewrite Sr, Sc in Hs. injection Hs as <-.
-  destruct (is_constant_kconst c TBool Oc Tc (is_const_is_constant c Kc)) as (o & -> & Hco).
+  destruct (is_const_kconst c TBool Oc Tc Kc) as (o & -> & Hco).
   destruct o; try contradiction; cbn in Tc; try discriminate Tc.
   rewrite <- Ec. cbn. unfold is_true. cbn. destruct b; split; intros H; try reflexivity; try discriminate H.
 Qed.
@@ -729,11 +809,11 @@ Proof.
 Qed.
 
 (* ------------------------------------------------------------------ example: all hypotheses hold, the conclusion is computed
-   f = (x + z + 2 <= y) & !b & (r / q = 3/2)   m = {x := 3, y := 7, r := 3.0, q := 2.0}   (z, b get defaults) *)
+   f = (x + z + 2 <= y) & !b & (r / q + to_real(x) = 9/2)   m = {x := 3, y := 7, r := 3.0, q := 2.0}   (z, b get defaults) *)
 Definition exm_f : term :=
   T OAnd [T OLe [T OPlus [TSym "x" TInt; TSym "z" TInt; TIntC 2]; TSym "y" TInt];
           T ONot [TSym "b" TBool];
-          T OEquals [T ODiv [TSym "r" TReal; TSym "q" TReal]; TRealC 3 2]].
+          T OEquals [T OPlus [T ODiv [TSym "r" TReal; TSym "q" TReal]; T OToReal [TSym "x" TInt]]; TRealC 9 2]].
 Definition exm_m : smap :=
   [(TSym "x" TInt, TIntC 3); (TSym "y" TInt, TIntC 7); (TSym "r" TReal, TRealC 3 1); (TSym "q" TReal, TRealC 2 1)].
 
@@ -755,5 +835,37 @@ Proof.
   split; [exact (model_interp_wf _ exm_model_ok)|]. split; [exact (model_interp_agrees _ exm_model_ok)|].
   split; [apply model_interp_defaults|]. split.
   - cbn. repeat split; auto. unfold Q2R'. intros H. lra.
+  - repeat split; vm_compute; reflexivity.
+Qed.
+
+(* ------------------------------------------------------------------ bit-vector example, width 4, partial model:
+   f = bvslt(bvashr(bvadd(u, v), 1), bvudiv(u, z))   m = {u := 9}   (v, z get the default 0_4)
+   bvadd = 9 = 1001, bvashr by 1 = 1100 = 12 (signed -4); bvudiv(9, 0) = 15 (signed -1); -4 <s -1 *)
+Definition exb_u := TSym "u" (TBV 4). Definition exb_v := TSym "v" (TBV 4). Definition exb_z := TSym "z" (TBV 4).
+Definition exb_l := T (OBV BAshr 4) [T (OBV BAdd 4) [exb_u; exb_v]; TBVC 1 4].
+Definition exb_r := T (OBV BUdiv 4) [exb_u; exb_z].
+Definition exb_f : term := T (OBVRel BSlt) [exb_l; exb_r].
+Definition exb_m : smap := [(exb_u, TBVC 9 4)].
+
+Lemma exb_model_ok : model_ok exb_m.
+Proof.
+  intros k v [[= <- <-]|[]]. do 2 eexists. split; [reflexivity|].
+  split; [eexists; split; [reflexivity | exact Logic.I] | split; reflexivity].
+Qed.
+
+Example get_value_example_bv :
+  model_ok exb_m /\ gfrag exb_f = true /\ tc exb_f = Some TBool /\
+  wf_interp (model_interp exb_m) /\ agrees (model_interp exb_m) exb_m /\
+  defaults_on (model_interp exb_m) exb_m exb_f /\ nodiv0 (model_interp exb_m) exb_f /\
+  get_value no_oracle exb_m exb_l true = Some (TBVC 12 4) /\
+  get_value no_oracle exb_m exb_r true = Some (TBVC 15 4) /\
+  get_value no_oracle exb_m exb_f true = Some TTrue /\
+  get_value no_oracle exb_m exb_f false = None /\
+  satisfies no_oracle exb_m exb_f = Some true.
+Proof.
+  split; [exact exb_model_ok|]. split; [vm_compute; reflexivity|]. split; [vm_compute; reflexivity|].
+  split; [exact (model_interp_wf _ exb_model_ok)|]. split; [exact (model_interp_agrees _ exb_model_ok)|].
+  split; [apply model_interp_defaults|]. split.
+  - cbn. repeat split; auto.
   - repeat split; vm_compute; reflexivity.
 Qed.
